@@ -215,6 +215,12 @@ def replay(case: dict) -> dict:
         k3, v3 = lib.outcome(lambda: str(lib.IBAN.from_bban(case["country"], src.bban)))
         want = bases.iban_text(case["country"], case["bban"])
         return {"ok": (k3, v3) == ("ok", want), "expected": want, "observed": (k3, v3)}
+    if case.get("layout"):
+        k, v = lib.iban_parse(case["layout"])
+        return {"ok": k == "ok", "expected": "accept", "observed": (k, v)}
+    if case.get("national"):
+        k, v = lib.iban_parse(case["country"] + case["dd"] + case["bban"], True)
+        return {"ok": k != "ok", "expected": "reject", "observed": (k, v)}
     bad = check_member(case["country"], case["bban"], via_object=bool(case.get("via_object")))
     for sig, cs, exp, obs in bad:
         if cs.get("dd") == case.get("dd"):
